@@ -182,12 +182,28 @@ pub struct Runner {
     metas: Vec<&'static Metadata<'static>>,
     pub handles: Vec<Option<(Id, usize)>>,
     registered: HashSet<usize>,
+    /// what `register_callsite` answered last for each call site (the macros cache it)
+    interest: std::collections::HashMap<usize, tracing_core::Interest>,
     pub log: Vec<FeCall>,
 }
 
 impl Runner {
     pub fn new(sites: &[Site]) -> Self {
-        Self { metas: sites.iter().map(dynsite::metadata_for).collect(), handles: vec![], registered: HashSet::new(), log: vec![] }
+        Self { metas: sites.iter().map(dynsite::metadata_for).collect(), handles: vec![], registered: HashSet::new(), interest: Default::default(), log: vec![] }
+    }
+
+    /// The macros' decision: the process-wide maximum level, then the interest the subscriber
+    /// declared when the call site was registered (`never`: skip, `always`: go ahead, `sometimes`:
+    /// ask `enabled`).
+    fn site_enabled(&self, dispatch: &Dispatch, k: usize, meta: &'static Metadata<'static>) -> bool {
+        if !level_enabled(meta) {
+            return false;
+        }
+        match self.interest.get(&k) {
+            Some(i) if i.is_never() => false,
+            Some(i) if i.is_always() => true,
+            _ => dispatch.enabled(meta),
+        }
     }
 
     fn resolve(&self, p: &PParent) -> (Option<Option<Id>>, String) {
@@ -212,7 +228,8 @@ impl Runner {
         match op {
             POp::Reg(k) => {
                 if let Some(meta) = metas.get(*k) {
-                    dispatch.register_callsite(meta);
+                    let i = dispatch.register_callsite(meta);
+                    self.interest.insert(*k, i);
                     self.registered.insert(*k);
                     log.push(FeCall::Register(*k));
                 }
@@ -221,10 +238,11 @@ impl Runner {
                 None => self.handles.push(None),
                 Some(meta) => {
                     if self.registered.insert(*k) {
-                        dispatch.register_callsite(meta);
+                        let i = dispatch.register_callsite(meta);
+                        self.interest.insert(*k, i);
                         log.push(FeCall::Register(*k));
                     }
-                    if !level_enabled(meta) || !dispatch.enabled(meta) {
+                    if !self.site_enabled(dispatch, *k, meta) {
                         self.handles.push(None);
                     } else {
                         let (par, ptok) = self.resolve(parent);
@@ -282,10 +300,11 @@ impl Runner {
             POp::Evt { k, parent, vals } => {
                 if let Some(meta) = metas.get(*k).copied() {
                     if self.registered.insert(*k) {
-                        dispatch.register_callsite(meta);
+                        let i = dispatch.register_callsite(meta);
+                        self.interest.insert(*k, i);
                         log.push(FeCall::Register(*k));
                     }
-                    if level_enabled(meta) && dispatch.enabled(meta) {
+                    if self.site_enabled(dispatch, *k, meta) {
                         let (par, ptok) = self.resolve(parent);
                         with_values(meta, vals, |vs| {
                             let event = match par {
